@@ -42,9 +42,14 @@ class C19(Check):
                     for dp in DEPTHS:
                         for mode in MODES:
                             yield (spec, build, pl, dp, mode, None)
+                            if pl in ("all", "gene") and dp in (1.5, 20):
+                                # the configured minimum itself: 3x is below a minimum of 10, 40x is not
+                                yield (spec, build, pl, dp, mode, None, "avg10")
 
     def successors(self, st):
-        spec, build, pl, dp, mode, out = st
+        spec, build, pl, dp, mode, out = st[:6]
+        if len(st) > 6:
+            return
         if out is None:
             for o in OUTPUTS[1:]:
                 if self.tier == "quick" and dp == 1.5:
@@ -58,7 +63,8 @@ class C19(Check):
         from aldy.common import AldyException
         from .. import repo
 
-        spec, build, pl, dp, mode, out = st
+        spec, build, pl, dp, mode, out = st[:6]
+        par = st[6] if len(st) > 6 else None
         repo.reset_debug_store()
         w = worlds.world(spec)
         gene = worlds.gene_of(spec, build)
@@ -106,6 +112,8 @@ class C19(Check):
             opath = os.path.join(d, f"SAMPLE_{pid}.{out}")
             fh = open(opath, "w")
         kw = dict(output_file=fh, genome=build)
+        if par == "avg10":
+            kw["min_avg_coverage"] = 10
         if mode == "cn":
             kw.update(profile_name=None, cn_solution=["1", "1"])
         elif mode == "bam":
@@ -129,8 +137,8 @@ class C19(Check):
         must_fail = None
         if not locus_reads:
             must_fail = "no read in the gene locus"
-        elif total_depth < 2:
-            must_fail = f"average depth {total_depth}x below the minimum"
+        elif total_depth < (10 if par == "avg10" else 2):
+            must_fail = f"average depth {total_depth}x below the configured minimum"
         elif mode != "cn" and pl == "gene+pseudo":
             must_fail = "copy-number-neutral region is empty"
         where = f"{pl} reads, {dp}x/copy, mode {mode}, output {out}, {build}"
@@ -158,7 +166,7 @@ class C19(Check):
             if err is None and out == "simple":
                 if len(text.splitlines()) != 1 or len(text.split("\t")) < 4:
                     v.append(("nodata/simple-line", f"{where}: {text!r}"))
-        key = (pl, dp, mode, "error" if err is not None else tuple(s.get_major_diplotype() for s in sols)[:1])
+        key = (pl, dp, mode, par, "error" if err is not None else tuple(s.get_major_diplotype() for s in sols)[:1])
         return Outcome(v, key=key, nontrivial=not (pl == "all" and dp == 20),
                        note={"case": where, "error": err[:80] if err else None, "called": None if sols is None else [s.get_major_diplotype() for s in sols]})
 
